@@ -61,6 +61,7 @@ def judge_book(ctx, prop, spec, targets, valuations, *, exact=False, err_exact=F
                 continue
             for fl in flags:
                 r.count('silent_clause:' + fl)
+            scale = evalr.LAST['scale']      # numbers read by the reference: round-off of a differently ordered sum is of that scale
             pending_flags = flags
             out = shared[(si, addr)] if shared is not None else book.value(si, addr, val)
             r.ev()
@@ -68,7 +69,7 @@ def judge_book(ctx, prop, spec, targets, valuations, *, exact=False, err_exact=F
             if case_extra:
                 case.update(case_extra)
             ok = outcome_matches(out, outs, exact=exact, err_exact=(err_exact(case) if callable(err_exact) else err_exact),
-                                 empty_text_is_blank=empty_text_is_blank)
+                                 empty_text_is_blank=empty_text_is_blank, scale=scale)
             if ok and pending_flags and flag_consistency:
                 _note_flag_constraint(r, env_, titles[si], addr, pending_flags, out, formula, strict_text, exact,
                                       (err_exact(case) if callable(err_exact) else err_exact), empty_text_is_blank)
